@@ -10,16 +10,26 @@ from common import Check, lean_batch, tb, tt, tlist
 
 TRUSTED = ['Lean 4.33.0 kernel (+ leanchecker in the thorough tier)',
            'axioms: propext, Classical.choice, Quot.sound only (audited per theorem)',
-           'harness/extract.py (pins), harness/c14.py + iod.py (generators, independent header reader, comparison), Drv.lean protocol parsing',
+           'harness/extract.py (pins), harness/c14.py + iod.py (generators, file reading with plain open() + iteration, comparison), Drv.lean protocol parsing',
            'compiled driver peldrv agrees with the kernel reading of the same definitions']
 ASSUME = ["CPython's % operator is modelled by pyFmt for the subset {flags 0 -, width, .precision, h l L, d i u x X c s %}; "
           'theorems treat it opaquely; formats outside the subset are counted and skipped',
-          'the regex that reads the C header (TBL_ENTRY_RE) is not modelled: synthetic header files written from abstract '
-          'tables and an independent reader on the shipped files tie it to the abstract table',
+          'the header LOADER is modelled (PelModel/Regex.lean: backtracking matcher + TBL_START_RE/TBL_ENTRY_RE/TBL_END_RE as ASTs; '
+          'Loaders.lean: the in_table line loop, _add_entry, the 1..4 filter) and proved to read back printed tables '
+          '(pte_header_roundtrip, lines_outside_table_ignored, non_matching_lines_skipped); that the Lean ASTs denote the same '
+          "patterns as the repo's pattern STRINGS and that the matcher has CPython's semantics is established by correspondence only: "
+          'Lean loader vs PTETable(path).entries, all five fields, on the shipped headers, the synthetic headers and the adversarial stream; '
+          'the harness has no reader of its own any more, every table used for decoding is loaded by the model from the file lines',
+          'loader answers outside the modelled subset are counted as skipped, never as agreement: non-ASCII characters in a parameter list, '
+          'more than 4300 line-number digits (int() raises), a pattern character that can make re.compile raise (\\ + ? { ( ) [)',
+          'files are read with open(path) + iteration exactly as the repo does (text mode, universal newlines, locale encoding = UTF-8 here)',
           'patterns over [0-9A-Fa-f*] only (any other pattern character is reported unsupported)']
 RULE = ('cases = (table, ILOG byte string); shipped tables: entries hitting every pattern with wildcard cells varied, '
         'reported/unreported variants, random entries, zero entries, lengths not multiples of 8; synthetic tables through '
-        'temporary header files. non-trivial = at least one non-zero entry; distinct by (table, bytes)')
+        'temporary header files. non-trivial = at least one non-zero entry; distinct by (table, bytes). '
+        'Loader cases = header files (shipped, synthetic, adversarial: every handcrafted entry/start/end line variant, small files with '
+        'character-level and file-level mutations, whole shipped headers with every line mutated); non-trivial = both loaders return a '
+        'non-empty table; distinct by file content')
 
 
 def fill(pattern, rng):
@@ -39,23 +49,19 @@ def run(tier, seed):
         reqs, meta = [], []   # meta: (kind, header_path, data, extra)
         tbl_ids = {}
 
-        def deftbl(entries):
-            reqs.append('deftbl ' + iod.tok_tbl(entries))
-            meta.append(('def', None, None, None))
-            tbl_ids[len(tbl_ids)] = entries
+        def deftblfile(path):
+            """install the table that the LEAN loader reads from the lines of `path`; the index is allocated in any case"""
+            reqs.append('deftblfile ' + iod.tok_lines(iod.file_lines(path)))
+            meta.append(('def', path, None, len(tbl_ids)))
+            tbl_ids[len(tbl_ids)] = path
             return len(tbl_ids) - 1
 
-        # ---- shipped tables: independent reader vs the repo's loader
+        loader_files = []
+        # ---- shipped tables: loaded by the model from the file lines; the real loader's entries only steer the generators
         for name, (hdr, _) in iod.drawer_files().items():
-            mine = iod.read_pte_table(hdr)
-            theirs = il.PTETable(hdr).entries
-            ck.case(key=('table', name, len(mine)), sample={'table': name, 'entries': len(mine)})
-            ok = len(mine) == len(theirs) and all(
-                m[0] == t.pte_pattern and m[1] == t.message_format and tuple(p for p in m[2] if 1 <= p <= 4) == tuple(t.params)
-                for m, t in zip(mine, theirs))
-            if not ok:
-                ck.disagree('independent reader and PTETable disagree on shipped table ' + name, {'table': name, 'mine': len(mine), 'theirs': len(theirs)})
-            tid = deftbl(mine)
+            loader_files.append(('shipped ' + name, hdr))
+            mine = [(t.pte_pattern, t.message_format, list(t.params)) for t in il.PTETable(hdr).entries]
+            tid = deftblfile(hdr)
             pats = [m[0] for m in mine if all(c in '0123456789abcdefABCDEF*' for c in m[0]) and len(m[0]) == 8]
             # entries hitting each pattern, reported variants, near misses
             ptes = []
@@ -121,8 +127,8 @@ def run(tier, seed):
                 family = [v, cleared, v ^ 0x00000001, cleared ^ 0x00100000, v | 0x00080000]
             path = os.path.join(tmp, 'synth%d.h' % t)
             iod.write_pte_header(path, ents)
-            abstract = [(p, f.strip(), [int(ch) for ch in ptxt if ch.isdigit()]) for (p, f, ptxt) in ents]
-            tid = deftbl(abstract)
+            loader_files.append(('synth%d' % t, path))
+            tid = deftblfile(path)
             for _ in range(30):
                 es = []
                 for _ in range(rng.randrange(1, 8)):
@@ -136,9 +142,24 @@ def run(tier, seed):
                 reqs.append('ilogspec %d %s %s' % (tid, tlist(es, lambda e: '%d %d %d' % e), tb(b'')))
                 meta.append(('spec', path, None, ('synth%d' % t, es, b'')))
 
+        # ---- the loader itself: Lean model vs PTETable(path).entries, field by field
+        df = iod.drawer_files()
+        loader_files += iod.adversarial_files(rng, 'pte', tmp, 1500 if thorough else 150, 24 if thorough else 4,
+                                              [df['mex'][0], df['nimitz'][0]])
+        ck.count('loader files with a non-empty table', iod.run_loader_stream(ck, 'pte', loader_files))
+        # ---- and the patterns themselves, one line at a time: None-ness and groups() of fullmatch
+        ck.count('lines matched by a pattern', iod.run_pattern_stream(ck, (0, 1, 2), rng, 6000 if thorough else 600, {0: iod.PTE_STARTS, 1: iod.PTE_LINES[:12], 2: iod.PTE_ENDS}))
+
         replies = lean_batch(reqs)
+        unloaded = set()
         for (kind, hdr, data, extra), r in zip(meta, replies):
             if kind == 'def':
+                if not r.ok:
+                    unloaded.add(hdr)
+                    ck.disagree('the model declines to load a table the decode cases need', {'op': 'load-pte', 'case': hdr, 'reply': r.raw[:60]})
+                continue
+            if hdr in unloaded:
+                ck.skip('table not loaded by the model')
                 continue
             if not r.ok:
                 ck.skip(r.raw[:40])
